@@ -4,8 +4,8 @@ from __future__ import annotations
 
 import ast
 
-from ..engine.context import Context
-from ..engine.loader import walk_expr
+from ..engine.context import Context, single_defs
+from ..engine.loader import walk_expr, walk_own
 from ..engine.terms import has_unknown, show, strip_sites, subterms
 
 PROPERTY = "C07"
@@ -230,6 +230,15 @@ class _Parser:
             self._problem(f"parse: buffer deleted/modified in place: `{n.text()}`", n)
             return
         self.read_nodes.add(n.id)
+        if isinstance(st, ast.Assign) and st.value is a and len(st.targets) == 1 and isinstance(st.targets[0], ast.Name):
+            # `tmp = self.<buffer>` where tmp is a temporary that is only ever returned bare: the same as `return self.<buffer>`
+            tmp = st.targets[0].id
+            if tmp in single_defs(self.f.node):
+                uses = [x for x in walk_own(self.f.node) if isinstance(x, ast.Name) and x.id == tmp and isinstance(x.ctx, ast.Load)]
+                nxt = [self.cfg.nodes[e[1]] for e in self.ctx.normal_out(self.cfg, n)]
+                if len(uses) == 1 and len(nxt) == 1 and nxt[0].kind == "return" and nxt[0].exprs and nxt[0].exprs[0] is uses[0]:
+                    self.ret_buf.append(nxt[0])
+                    return
         p = par.get(id(a))
         if p is None:
             if n.kind == "return":
